@@ -24,6 +24,25 @@ Proof.
     + eapply inv_pend_step; eauto.
 Qed.
 
+(* each invariant by itself (keeps the dependency cone of a theorem small) *)
+Lemma reach_ctl c s : reach c s -> inv_ctl s.
+Proof. apply reach_inv; [apply inv_ctl_init|]. intros; eapply inv_ctl_step; eauto. Qed.
+
+Lemma reach_fifo c s : reach c s -> inv_fifo s.
+Proof. apply reach_inv; [apply inv_fifo_init|]. intros; eapply inv_fifo_step; eauto. Qed.
+
+Lemma reach_tags c s : reach c s -> inv_fifo s /\ inv_tags s.
+Proof.
+  apply (reach_inv (fun s => inv_fifo s /\ inv_tags s)); [split; [apply inv_fifo_init|apply inv_tags_init]|].
+  intros s0 e s1 [I J] H. split; [eapply inv_fifo_step; eauto|eapply inv_tags_step; eauto].
+Qed.
+
+Lemma reach_pend c s : reach c s -> inv_ctl s /\ inv_pend s.
+Proof.
+  apply (reach_inv (fun s => inv_ctl s /\ inv_pend s)); [split; [apply inv_ctl_init|apply inv_pend_init]|].
+  intros s0 e s1 [C P] H. split; [eapply inv_ctl_step; eauto|eapply inv_pend_step; eauto].
+Qed.
+
 Lemma run_reach c es s : run step (init c) es = Some s -> reach c s.
 Proof. intros H; exists es; exact H. Qed.
 
@@ -31,7 +50,7 @@ Proof. intros H; exists es; exact H. Qed.
 
 Lemma resub_list_spec c s : reach c s -> resub_list (subs s) = spec_resub (map snd (dispatched s)).
 Proof.
-  intros R. destruct (inv_all_reach c s R) as [_ I _ _]. unfold resub_list, spec_resub. rewrite (if_subs s I). reflexivity.
+  intros R. pose proof (reach_fifo c s R) as I. unfold resub_list, spec_resub. rewrite (if_subs s I). reflexivity.
 Qed.
 
 Theorem resub_set_thm c es s id l ok s' :
@@ -54,7 +73,7 @@ Theorem resub_set_drained_thm c es s :
    resub_list (subs s) = spec_resub (map snd (issued s)) /\ is_resub_of (map snd (issued s)) (resub_list (subs s))).
 Proof.
   intros R. apply run_reach in R. pose proof (resub_list_spec c s R) as Hs. split; [exact Hs|].
-  intros Hd Hq. destruct (inv_all_reach c s R) as [_ I _ _].
+  intros Hd Hq. pose proof (reach_fifo c s R) as I.
   pose proof (if_all s I Hd) as Ha. rewrite Hq, app_nil_r in Ha. rewrite Ha.
   split; [exact Hs|]. rewrite Hs. apply spec_resub_is_resub.
 Qed.
@@ -68,7 +87,7 @@ Definition fifo_order (s : state) : Prop :=
 
 Theorem fifo_order_thm c es s : run step (init c) es = Some s -> fifo_order s.
 Proof.
-  intros R. apply run_reach in R. destruct (inv_all_reach c s R) as [_ I _ _].
+  intros R. apply run_reach in R. pose proof (reach_fifo c s R) as I.
   split; [exact (if_sub s I)|]. split; [exact (if_sorted s I)|exact (if_all s I)].
 Qed.
 
@@ -81,7 +100,7 @@ Definition offline_waits (s : state) : Prop :=
 
 Theorem offline_waits_thm c es s : run step (init c) es = Some s -> offline_waits s.
 Proof.
-  intros R. apply run_reach in R. destruct (inv_all_reach c s R) as [_ _ J _]. exact (it_disp s J).
+  intros R. apply run_reach in R. destruct (reach_tags c s R) as [_ J]. exact (it_disp s J).
 Qed.
 
 (* the tags name the commands of the ghost history *)
@@ -89,7 +108,7 @@ Theorem tags_name_commands c es s :
   run step (init c) es = Some s ->
   map fst (itags s) = map fst (issued s) /\ map fst (dtags s) = map fst (dispatched s).
 Proof.
-  intros R. apply run_reach in R. destruct (inv_all_reach c s R) as [_ I _ _]. split; [exact (if_itags s I)|exact (if_dtags s I)].
+  intros R. apply run_reach in R. pose proof (reach_fifo c s R) as I. split; [exact (if_itags s I)|exact (if_dtags s I)].
 Qed.
 
 (* ---------------------------------------------------------------- stop *)
@@ -107,7 +126,7 @@ Theorem stop_thm c es s s' :
   (exists s'', step s' EStartCall = Some s'' /\ sp s'' = STop true /\ started s'' = true /\ ap s'' = AStart true /\
                kill s'' = false /\ dying s'' = false /\ gen s'' = gen s' + 1).
 Proof.
-  intros R H. apply run_reach in R. destruct (inv_all_reach c s R) as [C _ _ P].
+  intros R H. apply run_reach in R. destruct (reach_pend c s R) as [C P].
   unfold step in H.
   destruct (ap s) as [| |cl ok'|] eqn:Eap; try discriminate.
   destruct (negb (eqb true ok')) eqn:Eok; [discriminate|].
@@ -135,13 +154,13 @@ Qed.
 (* no supervisor exists while the service is stopped (and no Stop is in progress) *)
 Theorem no_supervisor_when_stopped c es s :
   run step (init c) es = Some s -> (sp s = SIdle <-> (started s = false /\ stopping s = false)).
-Proof. intros R. apply run_reach in R. destruct (inv_all_reach c s R) as [C _ _ _]. exact (ic_idle s C). Qed.
+Proof. intros R. apply run_reach in R. exact (ic_idle s (reach_ctl c s R)). Qed.
 
 (* the accounting behind the Stop theorem: a pending future always has a holder Stop(true) reaches *)
 Theorem pending_held c es s n :
   run step (init c) es = Some s -> fut_get n (futs s) = Some FPending -> In n (holders s).
 Proof.
-  intros R Hp. apply run_reach in R. destruct (inv_all_reach c s R) as [_ _ _ P]. destruct (P n Hp) as [H|[]]. exact H.
+  intros R Hp. apply run_reach in R. destruct (reach_pend c s R) as [_ P]. destruct (P n Hp) as [H|[]]. exact H.
 Qed.
 
 (* ---------------------------------------------------------------- combined statements for Props/C17.v *)
@@ -186,4 +205,4 @@ Qed.
 (* while a supervisor exists (so a client may exist and run its cleanup), the shared store is protected:
    a connection loss cannot cancel the futures kept in it *)
 Theorem store_protected c es s : run step (init c) es = Some s -> sp s <> SIdle -> protected s = true.
-Proof. intros R. apply run_reach in R. destruct (inv_all_reach c s R) as [C _ _ _]. exact (ic_prot s C). Qed.
+Proof. intros R. apply run_reach in R. exact (ic_prot s (reach_ctl c s R)). Qed.
